@@ -262,6 +262,8 @@ pub struct Observed {
     pub entries: Vec<J>,
     pub keys:    J,
     pub values:  usize,
+    /// what the one-call entry point returns for the same input, when that is a layout different from `entries`
+    pub entries_analyze: Option<Vec<J>>,
 }
 
 /// Staged analysis with the VM's values observed between execution and inference.
@@ -332,6 +334,7 @@ pub fn observe(code: &[u8], lim: &Limits) -> Observed {
             entries: vec![],
             keys:    J::Null,
             values:  0,
+            entries_analyze: None,
         },
         Ok(Err(e)) => Observed {
             res:     "err",
@@ -339,8 +342,26 @@ pub fn observe(code: &[u8], lim: &Limits) -> Observed {
             entries: vec![],
             keys:    J::Null,
             values:  0,
+            entries_analyze: None,
         },
         Ok(Ok((layout, f, n))) => Observed {
+            entries_analyze: {
+                // the one-call entry point on the same input: whatever it returns must satisfy the same invariants
+                let code3 = code.to_vec();
+                let cfg3 = vm_config(lim);
+                let one = guarded(move || {
+                    let contract = Contract::new(code3, Chain::Ethereum { version: EthereumVersion::latest() });
+                    sle::new(contract, cfg3, tc::Config::default(), ScriptedWatchdog::new(1_000_000, None, 20_000_000)).analyze()
+                });
+                let _ = storage_layout_extractor::verif::take();
+                match one {
+                    Ok(Ok(l)) => {
+                        let e = entries_json(&l);
+                        if e == entries_json(&layout) { None } else { Some(e) }
+                    }
+                    _ => None,
+                }
+            },
             res:     "ok",
             msg:     String::new(),
             entries: entries_json(&layout),
@@ -356,6 +377,9 @@ fn record(src: &str, code: &[u8], desc: Option<&J>, o: &Observed) -> J {
                        "entries": o.entries, "vars": desc.map_or(json!([]), |d| d["vars"].clone())});
     if o.res == "ok" {
         r["keys"] = o.keys.clone();
+    }
+    if let Some(e) = &o.entries_analyze {
+        r["entries_analyze"] = json!(e);
     }
     r
 }
@@ -780,7 +804,7 @@ pub fn run(o: &Opts) -> R<()> {
         // often: both fragments write values from the same environment source, in different shapes
         if rng.gen_bool(0.5) {
             let src = rng.gen_range(1..5);
-            for v in a.iter_mut().chain(b.iter_mut()) {
+            for v in a.iter_mut().chain(b.iter_mut()).filter(|v| v.wall == 0 && v.pre == 0) {
                 v.src = src;
                 if !v.access.contains('w') {
                     v.access = "rw".to_string();
